@@ -65,6 +65,17 @@ def r1_root_clamp(ctx):
         out.append(holds("C01.R1", "do_resolve:clamp", op.where(), "'..' reaches the open only when pop() succeeded (not at the root)"))
     # on the at-root edge: dirfd := clone of the root, then next iteration
     false_edges = [e for (_t, be) in pops for e in be["false"]]
+    # every other component is opened: the next iteration is reached without the open only from the at-root edge
+    # ('file/..', 'file/.', 'file/' must fail with ENOTDIR like the kernel: the open of the component is what notices)
+    body_starts = [e for e in cfg.succ.get(hdr, []) if e.dst in loops[hdr]]
+    skip = hdr in cfg.edge_targets_reachable(body_starts, cut_nodes=[op.bb], cut_edges=[e.key() for e in false_edges])
+    if skip:
+        pth = cfg.path(body_starts[0].dst, hdr, cut_nodes=[op.bb], cut_edges=[e.key() for e in false_edges]) if body_starts else None
+        out.append(violated("C01.R1", "do_resolve:every-component-opened", op.where(),
+                            "a component can be consumed without being opened although the walk is not at the root (blocks %s): "
+                            "a non-directory followed by '..'/'.' is then accepted where the kernel returns ENOTDIR" % (pth,)))
+    else:
+        out.append(holds("C01.R1", "do_resolve:every-component-opened", op.where(), "only '..' at the root skips the component open"))
     fr = cfg.edge_targets_reachable(false_edges, cut_nodes=[hdr])
     resets = [t for t in b.calls("std::clone::Clone::clone") if t.bb in fr and "Rc<" in (t.rty or "") and _is_root_clone(ctx, T.origins_of_arg(t, 0))]
     # must pass through a reset before the header
@@ -89,10 +100,30 @@ def r2_absolute_restart(ctx):
     rl = list(b.calls("syscalls::readlinkat"))
     if not pre:
         return [violated("C01.R2", "do_resolve:prepend", b.where(), "no link splice found")]
+    # the spliced body is the readlink result itself (trailing slashes and empty components included)
+    for p_ in pre:
+        o = T.origins_of_arg(p_, 0)
+        okb = bool(o) and all(x.kind == "call" and (x.term in rl or x.term.callee == "utils::path::PathIterExt::raw_components") for x in o)
+        if okb:
+            for x in o:
+                if x.term.callee == "utils::path::PathIterExt::raw_components":
+                    o2 = T.origins_of_arg(x.term, 0)
+                    okb = okb and bool(o2) and all(y.kind == "call" and y.term in rl for y in o2)
+        (out.append(holds("C01.R2", "do_resolve:link-body-unmodified", p_.where(), "the components spliced into the walk are those of the readlinkat result")) if okb else
+         out.append(violated("C01.R2", "do_resolve:link-body-unmodified", p_.where(),
+                             "the link body is transformed before it is spliced into the walk (%s): e.g. dropping a trailing '/' makes 'link -> file/' resolve where the kernel returns ENOTDIR" % (o,))))
     tests = []
     for t in b.calls("std::path::Path::is_absolute"):
         o = T.origins_of_arg(t, 0)
-        if any(x.kind == "call" and x.term in rl for x in o) and t.bb in cfg.reachable(pre[0].target, cut_nodes=[hdr]):
+
+        def from_readlink(os_, depth=0):
+            for x in os_:
+                if x.kind == "call" and x.term in rl:
+                    return True
+                if x.kind == "call" and depth < 2 and x.term.args and from_readlink(T.origins_of_arg(x.term, 0), depth + 1):
+                    return True
+            return False
+        if from_readlink(o) and t.bb in cfg.reachable(pre[0].target, cut_nodes=[hdr]):
             be = bool_edges(b, t)
             if be:
                 tests.append(be)
@@ -252,6 +283,11 @@ def r5_modes_honoured(ctx):
                 used = True
     (out.append(holds("C01.R5", "do_resolve:no_follow_trailing", b.where(), "emulated walk branches on no_follow_trailing")) if used else
      out.append(violated("C01.R5", "do_resolve:no_follow_trailing", b.where(), "emulated walk ignores no_follow_trailing")))
+    # the emulated one-shot open derives the lookup mode from O_NOFOLLOW alone and applies the caller's flags
+    from .c04 import r5_oneshot_emulation, r6_component_queue
+    out.extend(r5_oneshot_emulation(ctx, "C01.R5"))
+    # every raw component reaches the walk
+    out.extend(r6_component_queue(ctx, "C01.R5"))
     # NO_SYMLINKS honoured (shared rule shape with C07)
     from .c07 import walk_rules
     for i in walk_rules(ctx, DR, "C01.R5"):
